@@ -2,9 +2,10 @@
 # usage: tools/try_mutant.sh <seeded dir name> <check ids...>
 # applies the seeded patch to a SCRATCH copy of /repo (outside /repo and /verif), runs the checks
 # against it (SYMMRAY_REPO), removes the copy.  /repo itself is never modified.
-D=/verif/seeded/$1; shift
+V=$(cd "$(dirname "$0")/.." && pwd)
+D=$V/seeded/$1; shift
 M=/tmp/mrepo_$$
-rm -rf $M; mkdir -p $M; rsync -a --exclude .git /repo/ $M/
+rm -rf $M; mkdir -p $M; git -C /repo archive HEAD | tar -x -C $M
 (cd $M && patch -p1 -s < $D/patch.diff) || { echo "patch failed"; rm -rf $M; exit 2; }
-for c in "$@"; do echo "== $c"; (cd /verif && SYMMRAY_REPO=$M ./check $c 2>&1 | grep -E "VIOLATION|KNOWN|Traceback|Error" | head -5; ); done
+for c in "$@"; do echo "== $c"; (cd $V && SYMMRAY_REPO=$M ./check $c 2>&1 | grep -E "VIOLATION|KNOWN|Traceback|Error" | cut -c1-160 | head -5; echo "rc=$?"; ); done
 rm -rf $M
